@@ -20,6 +20,11 @@ Proof.
     destruct (Z.of_nat (length str) =? 0) eqn:E0; [reflexivity|].
     destruct ((0 <? Z.of_nat (length str)) && (Z.of_nat (length str) <=? Z.of_nat (length str))) eqn:E1; [|lia].
     rewrite Nat2Z.id, firstn_all. reflexivity.
+  - (* printf: the length of the formatted result *)
+    unfold drv_print, write_str_bytes, xt_print.
+    destruct (Z.of_nat (length str) =? 0) eqn:E0; [reflexivity|].
+    destruct ((0 <? Z.of_nat (length str)) && (Z.of_nat (length str) <=? Z.of_nat (length str))) eqn:E1; [|lia].
+    rewrite Nat2Z.id, firstn_all. reflexivity.
   - (* printn *)
     cbn [api_args_okb] in Hargs.
     destruct (len =? 0) eqn:E0.
